@@ -59,7 +59,7 @@ func Spec(id, tier string) *core.CheckSpec {
 		cs.Batches = []core.Batch{
 			{Engine: "chainsim", Label: "enumerate-faults", Seconds: sec(60, 900), Opt: core.Options{Params: p("c18", "1")}},
 		}
-	case "C01", "C02", "C07", "C13":
+	case "C01", "C02", "C03", "C07", "C13":
 		cs.Batches = []core.Batch{
 			{Engine: "chainsim", Label: "swarm", Seconds: sec(50, 700), Opt: core.Options{}},
 			{Engine: "chainsim", Label: "late-forks", Seconds: sec(30, 400), Opt: core.Options{Params: p("forks", "late")}},
